@@ -157,7 +157,7 @@ fn check_world(w: &World, r: &mut Report) -> bool {
         let vals: Vec<u8> = l.iter().copied().collect();
         let read: Vec<u8> = l.read::<Vec<&u8>>().into_iter().copied().collect();
         let by_pos: Vec<u8> = (0..l.len()).map(|i| *l.position(i).unwrap()).collect();
-        let ok2 = vals == read && vals == by_pos && l.len() == got.len() && l.position(l.len()).is_none()
+        let ok2 = vals == read && vals == by_pos && l.len() == got.len() && l.is_empty() == got.is_empty() && l.position(l.len()).is_none()
             && l.first() == vals.first() && l.last() == vals.last()
             && got.iter().enumerate().all(|(i, (id, v))| l.position_entry(id) == Some(i) && l.get(id) == Some(v))
             && l.clone().read_into::<Vec<u8>>() == vals && l.clone().into_iter().collect::<Vec<u8>>() == vals;
@@ -293,7 +293,7 @@ fn glist_rec(reps: Vec<G>, ops: Vec<crdts::glist::Op<u8>>, desc: String, depth: 
         let ids: Vec<Identifier<u8>> = g.iter().cloned().collect();
         let sorted = ids.windows(2).all(|w| w[0] < w[1]);
         let vals = gread(g);
-        let ok = sorted && vals == ids.iter().map(|i| *i.value()).collect::<Vec<u8>>() && g.len() == ids.len()
+        let ok = sorted && vals == ids.iter().map(|i| *i.value()).collect::<Vec<u8>>() && g.len() == ids.len() && g.is_empty() == ids.is_empty()
             && (0..ids.len()).all(|i| g.get(i) == Some(&ids[i])) && g.get(ids.len()).is_none() && g.first() == ids.first() && g.last() == ids.last()
             && g.clone().read_into::<Vec<u8>>() == vals;
         r.case("glist.reads_in_identifier_order", ok, &|| format!("{} @g{}", desc, k), &|| format!("shows {:?}", vals));
